@@ -10,6 +10,7 @@ fn main() {
         "c11" => pv::c11::run(&args),
         "c09" => pv::c09::run(&args),
         "c13" => pv::c13::run(&args),
+        "c18" => pv::c18::run(&args),
         other => {
             eprintln!("unknown runner {other}");
             std::process::exit(2);
